@@ -116,8 +116,16 @@ class FakeGattClient:
         self.write_log: list[tuple[FakeHandle, bytes, bool]] = []
         self.read_count = 0
         self.is_connected = True
+        self.real_helper = False
 
     def determine_fragment_size(self, additional_overhead_size: int, handle) -> int:
+        if self.real_helper:
+            # the library's own computation (ble/bleak.py) for a link whose ATT_MTU is negotiated_size + 3 and whose bleak
+            # characteristic object reports handle.max_write_without_response_size; what one write can carry on that link
+            # is negotiated_size bytes (the callers of this class hold every write against that)
+            from aiohomekit.controller.ble import bleak as bleak_mod
+
+            return bleak_mod._determine_fragment_size(self.address, self.negotiated_size + 3, additional_overhead_size, handle)
         return self.negotiated_size - additional_overhead_size
 
     async def write_gatt_char(self, handle, data, response=None) -> None:
